@@ -486,6 +486,31 @@ func c07Enumerate(w *Worker) {
 					}
 					w.Out.Counters["direct_payload_evaluations"]++
 				}
+				// trailers that a lenient comparison might take for the right one: any change confined to the
+				// four trailer bytes is one burst of at most 32 bits, hence inside the guaranteed range
+				if shard == uint64(sc)%nsh {
+					tOff := len(body) - 4
+					t := uint32(orig[tOff]) | uint32(orig[tOff+1])<<8 | uint32(orig[tOff+2])<<16 | uint32(orig[tOff+3])<<24
+					plain := RCrc32Plain(orig[:tOff])
+					for ai, a := range []uint32{bits.ReverseBytes32(t), bits.Reverse32(t), ^t, 0, 0xffffffff, plain, bits.ReverseBytes32(plain), ^plain, t ^ 0xffffffff>>1, bits.RotateLeft32(t, 8), bits.RotateLeft32(t, 16), bits.RotateLeft32(t, 24)} {
+						if m := a ^ t; m != 0 {
+							var flips []int
+							lo, hi := 32, -1
+							for k := 0; k < 32; k++ {
+								if m>>uint(k)&1 == 1 {
+									flips = append(flips, tOff*8+k)
+									if k < lo {
+										lo = k
+									}
+									hi = k
+								}
+							}
+							evalFlips(map[string]int{"burst_len": hi - lo + 1, "burst_off": tOff*8 + lo, "burst_mask": int(m >> uint(lo))}, flips...)
+							w.Out.Counters["direct_alternative_trailers"]++
+							_ = ai
+						}
+					}
+				}
 				// single flips: all positions (sharded) for sizes up to 4 KiB, sampled for the largest
 				step := 1
 				if size > 4096 {
